@@ -22,6 +22,9 @@ claimed = set(src['checks'])
 missing = [p for p in props if p not in claimed and p not in src['not_applicable']]
 assert not missing, f'properties neither claimed nor not_applicable: {missing}'
 assert not (claimed & set(src['not_applicable'])), 'property both claimed and not applicable'
+for e in src['engines']:
+    if e.get('name') == 'kani-cbmc':
+        e['serves_properties'] = sorted(claimed)
 m = {
     'version': 1,
     'setup_cmd': src['setup_cmd'],
